@@ -94,7 +94,7 @@ def stream_roulette(ctx, lcu):
     rng = rng_for(ctx.seed, 'c19-roulette')
     t = 'thorough' if ctx.drift else ctx.tier
     b = Batch(ctx, s)
-    nmax, emax = budget(t, (5, 5), (6, 7))
+    nmax, emax = budget(t, (5, 6), (6, 7))
 
     def one(ws):
         res, exc = call(lcu._preprocess_for_efficient_roulette_selection, list(ws))
@@ -119,7 +119,7 @@ def stream_roulette(ctx, lcu):
         for ws in itertools.product(range(emax + 1), repeat=n):
             if sum(ws) % n == 0 or rng.random() < 0.02:
                 one(ws)
-    for _ in range(budget(t, 300, 3000)):
+    for _ in range(budget(t, 1000, 5000)):
         n = rng.choice([2, 3, 5, 8, 13, 21, 40, 60])
         kind = rng.random()
         if kind < 0.3:
@@ -163,7 +163,7 @@ def stream_lcu(ctx, lcu):
     rng = rng_for(ctx.seed, 'c19-lcu')
     t = 'thorough' if ctx.drift else ctx.tier
     b = Batch(ctx, s)
-    for _ in range(budget(t, 500, 5000)):
+    for _ in range(budget(t, 2000, 8000)):
         cs = rand_coeffs(rng)
         k = rng.randint(1, 12)
         eps = rng.choice([1, 1, 1, 3]) / 2 ** k
@@ -292,7 +292,7 @@ def stream_norms(ctx, of, lcu, gon):
 
     def exact_eq(x):
         return lambda a: a is not None and Fraction(a[0], a[1]) == x
-    for _ in range(budget(t, 120, 1200)):
+    for _ in range(budget(t, 300, 1500)):
         n = rng.choice([1, 2, 2, 3, 3, 4, 5])
         T, V = sym_matrix(rng, n), sym_matrix(rng, n)
         const = rng.choice([0.0, 0.5, -1.25])
@@ -311,7 +311,7 @@ def stream_norms(ctx, of, lcu, gon):
               [('lambda_norm differs from the 1-norm of the non-identity Jordan-Wigner coefficients',
                 {'op': 'c19.spec.jw_norm', 'n': n, 'operator': enc_ferm(terms), 'with_id': False}, exact_eq(x))])
     n3 = 0
-    for _ in range(budget(t, 70, 600)):
+    for _ in range(budget(t, 200, 1000)):
         n = rng.choice([1, 2, 2, 2, 3])
         h, g = sym_matrix(rng, n), sym8_tensor(rng, n)
         const = rng.choice([0.0, 0.5, -1.25, 2.0])
@@ -462,7 +462,7 @@ def stream_costs(ctx, thc_cost, sparse_cost):
     # iterations for the monotonicity / total checks come from the Model op c19.iters
     thc_params = [(108, 306.3, 0.001, 10, 16, 350, 20000), (152, 1201.5, 0.001, 10, 20, 450, 20000),
                   (108, 306.3, 0.001, 10, 16, 350, 10912), (152, 1201.5, 0.001, 10, 20, 450, 16923)]
-    for _ in range(budget(t, 60, 600)):
+    for _ in range(budget(t, 150, 800)):
         n = 2 * rng.randint(2, 100)
         M = rng.randint(8, 600)
         chi = rng.randint(5, 14)
@@ -488,7 +488,7 @@ def stream_costs(ctx, thc_cost, sparse_cost):
         chains.append(('thc', (n, lam, dE, chi, beta, M, stps), impl))
     sparse_params = [(108, 2135.3, 705831, 0.001, 10, 20000), (152, 1547.3, 440501, 0.001, 10, 20000),
                      (108, 2135.3, 705831, 0.001, 10, 26347), (152, 1547.3, 440501, 0.001, 10, 18143)]
-    for _ in range(budget(t, 60, 600)):
+    for _ in range(budget(t, 150, 800)):
         n = 2 * rng.randint(2, 100)
         d = rng.randrange(64, 2 ** rng.choice([8, 12, 16, 20])) * 2 ** rng.choice([0, 0, 1, 3, 5])
         chi = rng.randint(5, 14)
